@@ -258,6 +258,7 @@ func (P *Program) runStructural(spec string) []StructObl {
 			}
 			var firstAccess token.Pos
 			locked, deferred := false, false
+			wlocked, writes := false, ""
 			violation := ""
 			for _, b := range fn.Blocks {
 				for _, ins := range b.Instrs {
@@ -266,6 +267,9 @@ func (P *Program) runStructural(spec string) []StructObl {
 						if callee := x.Call.StaticCallee(); callee != nil && (callee.Name() == "Lock" || callee.Name() == "RLock") && len(x.Call.Args) > 0 && strings.Contains(P.describeValue(x.Call.Args[0]), fs[3]) {
 							if b.Index == 0 {
 								locked = true
+								if callee.Name() == "Lock" {
+									wlocked = true
+								}
 							}
 						}
 					case *ssa.Defer:
@@ -286,6 +290,12 @@ func (P *Program) runStructural(spec string) []StructObl {
 						if !firstAccess.IsValid() {
 							firstAccess = x.Pos()
 						}
+						// a write needs the exclusive lock: a read lock admits concurrent readers in the middle of the update
+						for _, ref := range *x.Referrers() {
+							if st2, isStore := ref.(*ssa.Store); isStore && st2.Addr == x && writes == "" {
+								writes = fmt.Sprintf("%s.%s at %s", fs[1], st.Field(x.Field).Name(), P.fset.Position(st2.Pos()))
+							}
+						}
 					}
 				}
 			}
@@ -296,6 +306,9 @@ func (P *Program) runStructural(spec string) []StructObl {
 				}
 				if !deferred {
 					return fail("%s takes %s but does not defer the unlock", P.fnKey(fn), fs[3])
+				}
+				if writes != "" && !wlocked {
+					return fail("%s writes %s holding only the read lock of %s", P.fnKey(fn), writes, fs[3])
 				}
 			}
 		}
